@@ -6,7 +6,7 @@ git -C /repo diff --quiet || { echo "/repo has local changes"; exit 2; }
 git -C /repo apply "$patch" || { echo "patch does not apply"; exit 2; }
 for p in "$@"; do
   echo "=== $p ($tier) with $(basename $(dirname $patch))/$(basename $patch)"
-  /verif/check "$p" "$tier" 2>&1 | grep -E "^(VIOLATION|KNOWN-FINDING|violation|HARNESS|C[0-9]+ (quick|thorough|sweep))" 
+  VERIF_EVIDENCE_DIR=/tmp/mut-evidence VERIF_REPLAY_DIR=/tmp/mut-replays /verif/check "$p" "$tier" 2>&1 | grep -E "^(VIOLATION|KNOWN-FINDING|violation|HARNESS|C[0-9]+ (quick|thorough|sweep))" 
   echo "exit=$?"
 done
 git -C /repo checkout -- . 
